@@ -24,6 +24,11 @@ Theorem C10_reshape_shape ns tg : ns <> [] -> allpos ns -> allpos tg -> prodl ns
   reshape_modes ns tg = Some tg.
 Proof. exact (reshape_shape ns tg). Qed.
 
+(* the same for TT matrices: every list of input (row, column) pairs and every target list with the same row and column element counts *)
+Theorem C10_reshape_shape4 ns tg : ns <> [] -> allpos2 ns -> allpos2 tg -> prodM ns = prodM tg -> prodN ns = prodN tg ->
+  reshape_modes4 ns tg = Some tg.
+Proof. exact (reshape_shape4 ns tg). Qed.
+
 (* permute: for every permutation dims of 0..d-1 the bubble loop terminates, performs exactly inv(dims) swaps, each at a valid
    bond, and ends with the modes in the order dims *)
 Theorem C10_permute_schedule (dims : list nat) : Permutation (seq 0 (length dims)) dims ->
@@ -67,6 +72,7 @@ End Values.
 
 Print Assumptions C10_reshape_loop_spec.
 Print Assumptions C10_reshape_shape.
+Print Assumptions C10_reshape_shape4.
 Print Assumptions C10_permute_schedule.
 Print Assumptions C10_qtt_modes.
 Print Assumptions C10_merge_entry.
